@@ -37,7 +37,10 @@ HIP_INPUTS = {
         ok=[('uniform', 50.0, 120.0), ('lognormal', 4.0, 0.2), ('normal', 80, 5), ('triangular', 40, 60, 100)],
         edge=[('normal', 0, 10), ('uniform', -50, 50)]),
     'Reservoir Thickness': dict(
-        ok=[('uniform', 0.122, 0.299), ('triangular', 0.1, 0.25, 0.5), ('lognormal', -1.4, 0.2), ('normal', 0.3, 0.01)],
+        # (the last two: a narrow range of small numbers, and magnitudes around 1e-6 - whatever is done to a sample between
+        # drawing it and recording it must keep it distinct and inside its support)
+        ok=[('uniform', 0.122, 0.299), ('triangular', 0.1, 0.25, 0.5), ('lognormal', -1.4, 0.2), ('normal', 0.3, 0.01),
+            ('uniform', 0.005, 0.006), ('triangular', 1.2e-06, 2.5e-06, 4.8e-06)],
         edge=[('uniform', -0.2, 0.2)]),
     'Recoverable Fluid Factor': dict(
         ok=[('uniform', 0.3, 0.7), ('triangular', 0.2, 0.5, 0.8), ('normal', 0.5, 0.02)],
@@ -155,6 +158,7 @@ Time steps per year,4
 
 GEO_INPUTS = {
     'Gradient 1': dict(ok=[('uniform', 55, 75), ('normal', 65, 2), ('triangular', 60, 65, 72)], edge=[]),
+    'Drawdown Parameter': dict(ok=[('uniform', 0.000012, 0.000018), ('triangular', 0.004, 0.005, 0.006)], edge=[]),
     'Utilization Factor': dict(ok=[('uniform', 0.7, 0.95), ('triangular', 0.8, 0.9, 0.99)], edge=[('uniform', 0.9, 1.1)]),
     'Ambient Temperature': dict(ok=[('triangular', 10, 15, 20), ('normal', 15, 1)], edge=[('uniform', 40, 60)]),
     'Production Flow Rate per Well': dict(ok=[('uniform', 80, 120), ('lognormal', 4.6, 0.05)], edge=[]),
